@@ -181,7 +181,7 @@ func trunc(b []byte, n int) []byte {
 func C01(run *mon.Run) {
 	run.Rule = "triples (key kind, message length class, hasher) x candidate kinds; a shape is (key kind, hasher, candidate kind, reference class of the candidate); non-trivial = candidate built from the reference point E=[k]H(m) or classified by the reference codec"
 	run.Assumptions = []string{
-		"H(m) is taken from the library as the signature under sk=1 (validated on-curve and in G1 by the reference); a hash-to-curve change applied consistently to sign and verify is invisible here",
+		"H(m) is taken from the library as the signature under sk=1 (validated on-curve and in G1 by the reference); the map from the 128 hasher bytes to G1 is anchored separately on the five RFC 9380 J.9.1 vectors (x, and y for the first) and on the reduction/symmetry/negation relations, not re-implemented",
 		"pairing equation decided by known discrete logs: e(s,g2)=e(H,pk) <=> s=[k]H",
 	}
 	r := run.Rand("main")
